@@ -85,10 +85,10 @@ def run(ctx: Check, tree: Tree) -> None:
     want = sqrt(te.construct(f"{FF}::BlattWeisskopfSquared", [q2 * d**2, L], {}))
     ok = isinstance(got, RF) and equal(got, want)
     ctx.verdict(ok, "R-TERM", f"{ffq}.evaluate", tree.loc(ffc.method("evaluate").node), "FormFactor(s, m1, m2, L, d) == sqrt(BlattWeisskopfSquared(q^2(s, m1, m2) * d^2, L))", None if ok else repr(got)[:200])
-    check_single_source(ctx, tree)
+    ctx.section(check_single_source, ctx, tree)
 
     # ---- builder API == function API
-    check_builder(ctx, tree, te)
+    ctx.section(check_builder, ctx, tree, te)
 
 
 def check_single_source(ctx: Check, tree: Tree) -> None:
@@ -177,6 +177,30 @@ def check_builder(ctx: Check, tree: Tree, te: TermEval) -> None:
     ctx.verdict(ok, "R-TERM", f"{cls.qual}::ff-times-edbw-equals-function", tree.loc(cls.methods["__energy_dependent_breit_wigner"].node),
                 "form factor x energy-dependent BW == relativistic_breit_wigner_with_ff(M^2, m_res, Gamma_res, m1, m2, L, d_res, self.phsp_factor)",
                 None if ok else {"builder": repr(edbw)[:200], "function": repr(want)[:200]})
+    # the four flag combinations of __call__ against the function API
+    ff_app = te.construct(f"{FF}::FormFactor", [M**2, pool["outgoing_state_mass1"], pool["outgoing_state_mass2"], pool["angular_momentum"], radius], {})
+    width = te.construct(f"{DYN}::EnergyDependentWidth", [M**2, res_mass, res_width, pool["outgoing_state_mass1"], pool["outgoing_state_mass2"], pool["angular_momentum"], radius], {"phsp_factor": self_struct["phsp_factor"]})
+    plain = te._rf(te.eval_function(fn_bw, [M**2, res_mass, res_width]))
+    ed = te._rf(res_mass) * te._rf(res_width) / (te._rf(res_mass) ** 2 - M**2 - width * te._rf(res_mass) * I)
+    expected = {
+        (False, False): plain,
+        (False, True): ff_app * plain,
+        (True, False): ed,
+        (True, True): te._rf(want),
+    }
+    call_m = cls.methods["__call__"]
+    for (edw_flag, ff_flag), want_expr in expected.items():
+        struct = {**self_struct, "energy_dependent_width": Opaque(edw_flag), "form_factor": Opaque(ff_flag)}
+        got = te.eval_function(call_m, [struct, resonance, pool])
+        ok = isinstance(got, Tup) and equal(te._rf(got.items[0]), want_expr)
+        ctx.verdict(ok, "R-TERM", f"{cls.qual}.__call__::flags({edw_flag},{ff_flag})", tree.loc(call_m.node),
+                    f"builder(energy_dependent_width={edw_flag}, form_factor={ff_flag}) == " + {
+                        (False, False): "relativistic_breit_wigner(M^2, m, Gamma)",
+                        (False, True): "FormFactor x relativistic_breit_wigner",
+                        (True, False): "m Gamma / (m^2 - M^2 - i m Gamma(M^2)) with the builder's phase-space factor",
+                        (True, True): "relativistic_breit_wigner_with_ff(..., phsp_factor = the builder's)",
+                    }[(edw_flag, ff_flag)],
+                    None if ok else repr(got)[:250])
     # __call__ multiplies form factor and expression; flags select the paths
     call = cls.methods["__call__"]
     crd = RD(call.node)
